@@ -76,6 +76,8 @@ func readComcastEbp(data []byte) (ebp *comcastEbp, err error) {
 	}
 
 	index := uint8(0)
+	// has reports whether n more bytes can be read at index
+	has := func(n int) bool { return int(index)+n <= len(data) }
 
 	ebp.DataFieldTag = data[index]
 	index += uint8(1)
@@ -94,22 +96,34 @@ func readComcastEbp(data []byte) (ebp *comcastEbp, err error) {
 	}
 
 	if ebp.ExtensionFlag() {
+		if !has(1) {
+			return nil, gots.ErrInvalidEBPLength
+		}
 		ebp.ExtensionFlags = data[index]
 		index += uint8(1)
 	}
 
 	if ebp.SapFlag() {
+		if !has(1) {
+			return nil, gots.ErrInvalidEBPLength
+		}
 		ebp.SapType = data[index]
 		index += uint8(1)
 	}
 
 	if ebp.GroupingFlag() {
+		if !has(1) {
+			return nil, gots.ErrInvalidEBPLength
+		}
 		group := data[index]
 		ebp.Grouping = append(ebp.Grouping, group)
 		index += uint8(1)
 	}
 
 	if ebp.TimeFlag() {
+		if !has(8) {
+			return nil, gots.ErrInvalidEBPLength
+		}
 		ebp.TimeSeconds = binary.BigEndian.Uint32(data[index : index+4])
 		index += uint8(4)
 
@@ -117,11 +131,11 @@ func readComcastEbp(data []byte) (ebp *comcastEbp, err error) {
 		index += uint8(4)
 	}
 
-	if index < ebp.DataFieldLength+2 {
-		if int(ebp.DataFieldLength+2) > len(data) {
+	if end := int(ebp.DataFieldLength) + 2; int(index) < end {
+		if end > len(data) {
 			return nil, gots.ErrInvalidEBPLength
 		}
-		ebp.ReservedBytes = data[index : ebp.DataFieldLength+2]
+		ebp.ReservedBytes = data[index:end]
 	}
 
 	// update the successful read time
